@@ -9,7 +9,7 @@ from lxml import etree
 
 from sdc11073 import commlog, observableproperties
 from sdc11073.httpserver.compression import CompressionHandler
-from sdc11073.httpserver.httpreader import mk_chunks
+from sdc11073.httpserver.httpreader import DecompressError, mk_chunks
 from sdc11073.namespaces import default_ns_helper as ns_hlp
 from sdc11073.pysoap.soapenvelope import Fault
 
@@ -78,7 +78,9 @@ class SoapClientAsync:
             connector = TCPConnector()
             base_url = f'http://{self._netloc}/'
 
-        return ClientSession(base_url, connector=connector, timeout=ClientTimeout(self._socket_timeout))
+        # content codings are handled here (CompressionHandler), not by aiohttp: it does not know lz4 and ignores unknown codings
+        return ClientSession(base_url, connector=connector, timeout=ClientTimeout(self._socket_timeout),
+                             auto_decompress=False)
 
     async def async_connect(self):
         """Connect to netloc."""
@@ -130,8 +132,8 @@ class SoapClientAsync:
             }
             logging.getLogger(commlog.SOAP_REQUEST_OUT).debug(xml_request, extra={'http_method': 'POST'})
 
-            if self.supported_encodings:
-                headers['Accept-Encoding'] = ','.join(self.supported_encodings)
+            # without this header aiohttp would advertise its own codings (gzip, deflate, ...)
+            headers['Accept-Encoding'] = ','.join(self.supported_encodings) or 'identity'
             if self.request_encodings:
                 for compr in self.request_encodings:
                     if compr in self.supported_encodings:
@@ -145,7 +147,16 @@ class SoapClientAsync:
                 headers['Content-Length'] = str(len(xml_request))
 
             async with self._http_connection.post(path, data=xml_request, headers=headers) as resp:
-                xml_response = await resp.text()
+                content = await resp.read()
+                actual_enc = ', '.join(resp.headers.getall('Content-Encoding', []))
+                if actual_enc:
+                    if actual_enc not in self.supported_encodings:
+                        raise DecompressError(f'content-encoding "{actual_enc}" is not supported')
+                    try:
+                        content = CompressionHandler.decompress_payload(actual_enc, content)
+                    except Exception as ex:
+                        raise DecompressError(f'could not decompress "{actual_enc}" content: {ex}') from ex
+                xml_response = content.decode('utf-8')
 
         finally:
             self.roundtrip_time = time.perf_counter() - started  # set roundtrip time even if method raises an exception
